@@ -31,6 +31,7 @@ type Scheduler struct {
 	events      []SyncEvent
 	record      bool
 	logical     int
+	switches    []string // human-readable context switches of this path
 }
 
 func newScheduler(it *Interp) *Scheduler {
@@ -191,9 +192,26 @@ func (s *Scheduler) yield(what string) {
 	if meRunnable {
 		s.preemptions++
 	}
+	s.noteSwitch(me, next, what)
 	s.cur = next
 	next.wake <- true
 	s.park(me)
+}
+
+func (s *Scheduler) noteSwitch(from, to *Thread, what string) {
+	where := ""
+	if s.it.top != nil {
+		where = s.it.top.fn.Name()
+		for f := s.it.top; f != nil; f = f.caller {
+			if f.fn.Pkg != nil && f.fn.Pkg.Pkg.Path() == s.it.P.ModulePath {
+				where = f.fn.Name()
+				break
+			}
+		}
+	}
+	if len(s.switches) < 64 {
+		s.switches = append(s.switches, fmt.Sprintf("g%d@%s(%s)->g%d", from.id, what, where, to.id))
+	}
 }
 
 func (s *Scheduler) park(me *Thread) {
